@@ -86,6 +86,9 @@ pub struct Monitors {
     pub established_seen: bool,
     pub initiator_pkt_seen: bool,
     pub first_data_ever: bool,
+    // ---- Nagle (C18): where segmentation stopped because the peer window was used up ----
+    pub seg_end_abs: u64,
+    pub window_limited_cuts: Vec<u64>,
 }
 
 impl Monitors {
@@ -128,6 +131,8 @@ impl Monitors {
             established_seen: !cfg.incoming,
             initiator_pkt_seen: false,
             first_data_ever: false,
+            seg_end_abs: 0,
+            window_limited_cuts: vec![],
         }
     }
 
@@ -181,6 +186,13 @@ impl Monitors {
                 out.push(now.saturating_sub(t));
             }
             None => out.push(u64::MAX),
+        }
+        out.push(self.seg_end_abs);
+        for c in &self.window_limited_cuts {
+            // only cuts whose segment is still to be sent matter
+            if *c > self.tx.values().map(|t| t.off + t.len as u64).max().unwrap_or(0) {
+                out.push(*c);
+            }
         }
         out.push(self.synack_times.len() as u64);
         if let Some(t) = self.synack_times.last() {
@@ -1130,6 +1142,17 @@ impl Monitors {
                 format!("write accepted {} bytes, the peer has cumulatively acknowledged {}: {} unacknowledged > limit {}", w.written, self.cum_acked_bytes, w.written - self.cum_acked_bytes, limit),
             ));
         }
+        // uTP segments once: note where a segmentation pass ended because the peer window was used up
+        {
+            let end = (w.written + oa.tx_segmented_bytes as u64).saturating_sub(oa.tx_ring_len as u64);
+            if end > self.seg_end_abs {
+                let newly = end - self.seg_end_abs;
+                if newly == self.peer_last_wnd as u64 {
+                    self.window_limited_cuts.push(end);
+                }
+                self.seg_end_abs = end;
+            }
+        }
         // first transmissions of this step, in order
         let mss = ob.mss as usize;
         for e in rec.emitted.iter().filter(|e| e.hdr.ptype == 0) {
@@ -1145,7 +1168,8 @@ impl Monitors {
                 let window_left = (self.peer_last_wnd as usize).saturating_sub(outstanding_before);
                 let could = mss.min(window_left);
                 let by_rto_timer = matches!(act, Some(Act::Tick) | Some(Act::Wait(_))) && ob.flight_size == 0;
-                if earlier_unacked && e.payload.len() < could && !by_rto_timer && self.fin_seq.is_none() {
+                let cut_by_window = self.window_limited_cuts.contains(&(t.off + t.len as u64));
+                if earlier_unacked && e.payload.len() < could && !by_rto_timer && self.fin_seq.is_none() && !cut_by_window {
                     // a partial segment is legitimate if it is the last one cut before the writer added more? No:
                     // Nagle holds a partial segment back while anything is unacknowledged.
                     v.push(f(
